@@ -13,7 +13,9 @@ args = sys.argv[1:]
 if "--tier" in args:
     i = args.index("--tier"); tier = args[i + 1]; del args[i:i + 2]
 names = sorted(os.listdir(os.path.join(root, "seeded")))
-if args: names = [n for n in names if any(n.startswith(a) for a in args)]
+exact = "--exact" in args
+if exact: args.remove("--exact")
+if args: names = [n for n in names if any((n == a) if exact else n.startswith(a) for a in args)]
 summary = []
 for n in names:
     d = os.path.join(root, "seeded", n)
